@@ -1,4 +1,4 @@
 SPECIFICATION Spec
-CONSTANTS InitCap = 2  MaxCap = 4  Gap = 1  Ids = {1, 2}  MaxPub = 3  W = {1, 2}  Tails = {1, 3}
+CONSTANTS InitCap = 2  MaxCap = 4  Gap = 1  Ids = {1, 2}  MaxPub = 3  W = {1, 2}  Tails = {1, 3}  BBs = {FALSE, TRUE}
 INVARIANTS RingCorrect NoBadDelivery ErroredOnlyIfLagged QuietComplete RecentBookmarksAccepted AcceptedBookmarkRetained
 CHECK_DEADLOCK FALSE
